@@ -383,6 +383,51 @@ fn far_cases(ctx: &Ctx) {
     }
 }
 
+/// Targets that do not fit 64 bits: written as sums and products of literals whose value, taken modulo 2^64,
+/// would lie next to the instruction. They are unreachable whichever way the expression arrives - written on the
+/// line, through an `.equ` or a `.set`, as a macro argument, as an offset to `pc`.
+fn overflowing_target_cases(ctx: &Ctx) {
+    let forms = isa::forms();
+    let texts = [
+        "0x7fffffffffffffff + 0x7fffffffffffffff + 4",
+        "0x4000000000000000 * 4 + 3",
+        "-0x7fffffffffffffff - 0x7fffffffffffffff - 1",
+        "0x2000000000000000 * 8",
+        "9223372036854775807 + 3 - 1",
+        "4611686018427387904 * 2 + 2",
+        "-4611686018427387904 * 3 - 4611686018427387904 + 2",
+        "3 - (-0x7fffffffffffffff - 2)",
+    ];
+    let mut n = 0u64;
+    for form in forms.iter().filter(|f| f.mn == "rjmp" || f.mn == "rcall" || f.mn == "brne" || f.mn == "brcs") {
+        for t in texts {
+            for route in 0..6 {
+                let src = match route {
+                    0 => format!("\tnop\n\t{} {}\n\tnop\n", form.mn, t),
+                    1 => format!(".equ far = {}\n\tnop\n\t{} far\n\tnop\n", t, form.mn),
+                    2 => format!("\tnop\n\t{} Far\n\tnop\n.equ far = {}\n", form.mn, t),
+                    3 => format!(".set far = {}\n\tnop\n\t{} far\n\tnop\n", t, form.mn),
+                    4 => format!(".macro go\n\t{} @0\n.endm\n\tnop\n\tgo {}\n\tnop\n", form.mn, t),
+                    _ => format!(".equ skip = {}\n\tnop\n\t{} pc + skip\n\tnop\n", t, form.mn),
+                };
+                let src = format!("; C03 overflowing target case\n{}", src);
+                let out = fw::build_str(&src);
+                ctx.eval(1);
+                n += 1;
+                ctx.distinct(fw::mix64(0x30F1 ^ route, fw::hash_str(t) ^ fw::hash_str(&form.name)));
+                if !out.is_err() {
+                    ctx.violation(
+                        format!("rel/{}/out-of-range-accepted/target-beyond-64-bits/{}", form.name, ["on-the-line", "through-equ", "through-equ-defined-later", "through-set", "as-macro-argument", "as-offset-to-pc"][route as usize]),
+                        format!("{} to `{}`, which does not fit 64 bits: {:?}", form.mn, t, out.brief()),
+                        json!({"source": src, "form": form.name, "flag": 0, "d": 1i64 << 40, "fits": false, "expect_code": "", "observed": out.brief()}),
+                    );
+                }
+            }
+        }
+    }
+    ctx.put("overflowing_target_builds", json!(n));
+}
+
 /// On a part whose flash is exactly 2^k words the program counter of the real chip wraps around, and some
 /// assemblers let rjmp/rcall "reach" a target the short way round. The statement does not: a target is
 /// reached iff target = address + 1 + d with d in the field. Every device size class, instruction near
@@ -715,6 +760,7 @@ pub fn run(ctx: &Ctx) -> i32 {
         return 2;
     }
     far_cases(ctx);
+    overflowing_target_cases(ctx);
     wrap_around_cases(ctx);
     flash_edge_cases(ctx);
     last_line_cases(ctx);
@@ -730,7 +776,7 @@ pub fn run(ctx: &Ctx) -> i32 {
     ctx.exhaustive.store(true, std::sync::atomic::Ordering::Relaxed);
     fw::finish(
         ctx,
-        "for each of the 18 br<cond> mnemonics, brbs/brbc x 8 flags, rjmp and rcall: every displacement in the stated window (branches -80..80; rjmp/rcall around both limits and zero, thorough -2100..2100) x filler mixes (nop-only and random mixes of one/two-word instructions, .dw/.db/.dq data, .org gaps) x target spellings (label, label+k, label-k, pc±k) x start addresses; plus far targets: displacements within ±65/±2049 of ±2^k for k up to 40, pc-relative and through labels placed with .org (all must be rejected); rjmp/rcall/brne near either end of the flash of one device per power-of-two flash size with the target near the other end (a wrapped displacement would fit; must be rejected) and in-range controls there; the same three at the last words and the first words of every flash size of the table and of the 4 Mi-word default with targets on the other side of the edge (d = 0, 1, the largest that fits, one more; written as pc±k, as a number, through an .equ); the branch as the last line of a file (label with a shorter namesake, two-digit pc offset) with and without a final line end, LF and CRLF, and in files with non-UTF-8 bytes or a byte order mark (refused or built right); and every form inside a one-line macro body expanded several times back to back (pc-relative and label targets), and with the target as a macro parameter (pc-relative text at both limits and one beyond, forward and backward labels; macro defined and called inside taken conditional branches); distinct_nontrivial = distinct (mnemonic, flag, displacement) triples",
+        "for each of the 18 br<cond> mnemonics, brbs/brbc x 8 flags, rjmp and rcall: every displacement in the stated window (branches -80..80; rjmp/rcall around both limits and zero, thorough -2100..2100) x filler mixes (nop-only and random mixes of one/two-word instructions, .dw/.db/.dq data, .org gaps) x target spellings (label, label+k, label-k, pc±k) x start addresses; plus far targets: displacements within ±65/±2049 of ±2^k for k up to 40, pc-relative and through labels placed with .org (all must be rejected); targets written as sums and products of literals that do not fit 64 bits but would lie next to the instruction modulo 2^64, on the line, through .equ / .set, as macro argument and as offset to pc (all must be rejected); rjmp/rcall/brne near either end of the flash of one device per power-of-two flash size with the target near the other end (a wrapped displacement would fit; must be rejected) and in-range controls there; the same three at the last words and the first words of every flash size of the table and of the 4 Mi-word default with targets on the other side of the edge (d = 0, 1, the largest that fits, one more; written as pc±k, as a number, through an .equ); the branch as the last line of a file (label with a shorter namesake, two-digit pc offset) with and without a final line end, LF and CRLF, and in files with non-UTF-8 bytes or a byte order mark (refused or built right); and every form inside a one-line macro body expanded several times back to back (pc-relative and label targets), and with the target as a macro parameter (pc-relative text at both limits and one beyond, forward and backward labels; macro defined and called inside taken conditional branches); distinct_nontrivial = distinct (mnemonic, flag, displacement) triples",
         &["distances are realised with reference encodings of the filler items (refmodel/isa.rs); decode by the independent decoder"],
     )
 }
